@@ -118,15 +118,15 @@ theorem locks_valid_while_reachable_current (acts : List RAct) :
   shared_valid_while_reachable rcfg (by decide) (by decide) (by decide) acts
 
 /-- lock discipline of today's ev.c: the kernel evaluates the path checker on the regenerated statement tree of every function
-    that takes / releases the thread-channel mutex; all ten are accepted; the only other users of the mutex are ev/select's
-    multi-lock scan (cfun_channel_choice + chan_unlock_args: tested only, known finding deadlock-select-lock-order) and the
-    supervisor push of janet_loop1 (lock; closed ? unlock : push_with_lock) -/
+    that takes / releases the thread-channel mutex; all eleven are accepted (incl. the supervisor push of janet_loop1:
+    lock; closed ? unlock : push_with_lock); the only other user of the mutex is ev/select's multi-lock scan
+    (cfun_channel_choice + chan_unlock_args: see `select_lock_discipline_current`) -/
 theorem lock_discipline_current :
     Gen.ThreadLock.lockProgs.map (·.1) =
       ["janet_thread_chan_cb", "janet_channel_push_with_lock", "janet_channel_pop_with_lock", "janet_channel_push", "janet_channel_pop",
-       "cfun_channel_close", "cfun_channel_full", "cfun_channel_capacity", "cfun_channel_count", "janet_chan_deinit"] ∧
+       "cfun_channel_close", "cfun_channel_full", "cfun_channel_capacity", "cfun_channel_count", "janet_chan_deinit", "janet_loop1"] ∧
     Gen.ThreadLock.lockProgs.all (fun p => LockCert.accepts p.2.1 p.2.2) = true ∧
-    Gen.ThreadLock.outsideCertificate.all (fun f => f ∈ ["cfun_channel_choice", "chan_unlock_args", "janet_loop1"]) = true := by
+    Gen.ThreadLock.outsideCertificate.all (fun f => f ∈ ["cfun_channel_choice", "chan_unlock_args"]) = true := by
   decide
 
 /-- ... hence: every path through each of them releases the mutex exactly once per acquisition and leaves with it released -/
